@@ -2,7 +2,9 @@ import CashewsVerif.Model.Decor.Outcome
 /-
 Model of `cashews/decorators/cache/iterator.py` (`iterator`, after the repairs 881ce85,
 8b4a058, 78c3934, 5b10c85) over the ideal TTL map.  The wrapped async generator is a script `Nat → IBeh`: the n-th run (counted over
-the whole history) performs `script n`.  The consumer drains every stream it is given.
+the whole history) performs `script n`.  A consumer either drains the stream it is given, or stops early
+(`Consumer`): a real run is therefore one of {completed, raised, abandoned after some items, cancelled
+after some items} (`Ending`); only a run that ended by itself can ever write the marker.
 Mathlib-free.
 -/
 namespace CashewsVerif.Decor.Iter
@@ -15,6 +17,43 @@ structure IBeh where
   steps : List (Kind × Nat)
   findur : Nat
   deriving DecidableEq, Repr
+
+/-- what the consumer of one call does with the stream -/
+inductive Consumer where
+  | drain              -- `async for` to the end (StopAsyncIteration or the exception)
+  | take (j : Nat)     -- receives `j+1` items and then stops asking: `break` + `aclose()`, or the stream is simply
+                       -- dropped and finalised by the event loop, or the consumer's task is cancelled between two
+                       -- items; either way `GeneratorExit` is thrown into the decorator's frame at `yield chunk`
+  | cancel (j : Nat)   -- the consumer's task is cancelled while the wrapped generator works on its step `j` (after `j`
+                       -- items; step `steps.length` is the final stretch): `CancelledError` out of `await anext(...)`.
+                       -- A replay has no such suspension point: on a hit this consumer drains.
+  deriving DecidableEq, Repr
+
+/-- how a real run ended -/
+inductive Ending where
+  | completed          -- the body returned (StopAsyncIteration)
+  | raised             -- the body raised an `Exception` (selected by the condition or not)
+  | abandoned          -- the consumer stopped asking (GeneratorExit at `yield chunk`)
+  | cancelled          -- the consumer was cancelled while the body was working (CancelledError)
+  deriving DecidableEq, Repr
+
+/-- the run ended by itself: every item (and the final exception, if any) was delivered -/
+def Ending.done : Ending → Bool
+  | .completed => true
+  | .raised => true
+  | _ => false
+
+/-- how run `steps` ends under consumer `cs`, from item index `i` on (specification; no store) -/
+def ending (cs : Consumer) : List (Kind × Nat) → Nat → Ending
+  | [], i => if cs = .cancel i then .cancelled else .completed
+  | (.exc _ _, _) :: _, i => if cs = .cancel i then .cancelled else .raised
+  | (_, _) :: rest, i =>
+    if cs = .cancel i then .cancelled else if cs = .take i then .abandoned else ending cs rest (i + 1)
+
+/-- what a consumer sees of a replay: `take j` reads `j+1` elements and closes the stream -/
+def Consumer.view : Consumer → List Res → List Res
+  | .take j, rs => rs.take (j + 1)
+  | _, rs => rs
 
 structure Cfg where
   cond : Cond
@@ -55,13 +94,20 @@ def excOk (c : Cond) (cls p : Nat) : Bool :=
     if _to_cache and chunk_number:
         executing_time = time.monotonic() - start
         if _ttl > executing_time: await backend.set(_cache_key, chunk_number, expire=_ttl - executing_time)
-``` -/
-def body (cond : Cond) (ttl k n start findur : Nat) : List (Kind × Nat) → TtlMap → Bool → Nat → TtlMap × List Res
+```
+`GeneratorExit` (thrown at `yield chunk` when the consumer closes / drops the stream) and `CancelledError` (raised by
+`await anext(...)` when the consumer's task is cancelled) are not `Exception`s: they leave the frame at once, past
+every `backend.set` - chunks already written stay, the marker is not written. -/
+def body (cond : Cond) (ttl k n start findur : Nat) (cs : Consumer) : List (Kind × Nat) → TtlMap → Bool → Nat → TtlMap × List Res
   | [], t, ok, i =>
+    if cs = .cancel i then (t, [])          -- CancelledError propagates out of `await anext(...)`: nothing more is written
+    else
     let t := advance t findur
     let spent := t.now - start
     (if ok && decide (i ≠ 0) && decide (spent < ttl) then t.write (ckey k 0) (.int i) (some (ttl - spent)) else t, [])
   | (.exc c p, d) :: _, t, ok, i =>
+    if cs = .cancel i then (t, [])
+    else
     let t := advance t d
     let spent := t.now - start
     let r := Res.exc c p n
@@ -69,11 +115,15 @@ def body (cond : Cond) (ttl k n start findur : Nat) : List (Kind × Nat) → Ttl
         (t.write (ckey k (i + 1)) r.enc (some ttl)).write (ckey k 0) (.int (i + 1 : Nat)) (some (ttl - spent))
       else t, [r])
   | (kd, d) :: rest, t, ok, i =>
+    if cs = .cancel i then (t, [])
+    else
     let t := advance t d
     let r := kd.res n i
+    if cs = .take i then (t, [r])           -- GeneratorExit at `yield chunk`: this chunk is not stored, no marker
+    else
     let ok' := ok && itemOk cond kd
     let t := if ok' then t.write (ckey k (i + 1)) r.enc (some ttl) else t
-    let (t', rs) := body cond ttl k n start findur rest t ok' (i + 1)
+    let (t', rs) := body cond ttl k n start findur cs rest t ok' (i + 1)
     (t', r :: rs)
 
 /-- the marker holds the number of chunks; anything falsy (or absent) is a miss -/
@@ -104,6 +154,8 @@ structure Run where
   start : Nat
   outs : List Res          -- everything the consumer received, a final exception included
   fin : Nat                -- instant at which the run ended
+  cons : Consumer          -- what the consumer of that call did
+  ending : Ending          -- how the run ended
   deriving DecidableEq, Repr
 
 structure St where
@@ -113,7 +165,7 @@ structure St where
 def St.init : St := { store := TtlMap.init, runs := [] }
 
 inductive Op where
-  | iter (k : Nat)     -- a call (drained by the consumer) whose bound arguments render to key `k`
+  | iter (k : Nat) (cs : Consumer)   -- a call whose bound arguments render to key `k`, read by consumer `cs`
   | adv (dt : Nat)
   deriving DecidableEq, Repr
 
@@ -124,14 +176,14 @@ inductive Out where
 
 def step (cfg : Cfg) (script : Nat → IBeh) (s : St) : Op → St × Out
   | .adv dt => ({ s with store := advance s.store dt }, .unit)
-  | .iter k =>
+  | .iter k cs =>
     let cnt := markerCount (s.store.find (ckey k 0))
-    if cnt ≠ 0 then (s, .got (replay s.store k cnt 0) true)
+    if cnt ≠ 0 then (s, .got (cs.view (replay s.store k cnt 0)) true)
     else
       let n := s.runs.length
       let b := script n
-      let (t', rs) := body cfg.cond (cfg.ttl k) k n s.store.now b.findur b.steps s.store true 0
-      ({ store := t', runs := s.runs ++ [⟨k, s.store.now, rs, t'.now⟩] }, .got rs false)
+      let (t', rs) := body cfg.cond (cfg.ttl k) k n s.store.now b.findur cs b.steps s.store true 0
+      ({ store := t', runs := s.runs ++ [⟨k, s.store.now, rs, t'.now, cs, ending cs b.steps 0⟩] }, .got rs false)
 
 def run (cfg : Cfg) (script : Nat → IBeh) (s : St) : List Op → St × List Out
   | [] => (s, [])
